@@ -98,7 +98,7 @@ func TestVP_C17_Exit(t *testing.T) {
 						}
 					}
 				}
-				kind := rapid.SampledFrom([]string{"ok", "ok", "refused", "forbidden", "dest-closes"}).Draw(t, "kind")
+				kind := rapid.SampledFrom([]string{"ok", "ok", "refused", "forbidden", "dest-closes", "ack-write-fails"}).Draw(t, "kind")
 				addr, port := "127.0.0.1", uint16(vpC17Echo.Port)
 				switch kind {
 				case "refused":
@@ -109,11 +109,13 @@ func TestVP_C17_Exit(t *testing.T) {
 					port = uint16(vpC17Shut.Addr().(*net.TCPAddr).Port)
 				}
 				nrep := len(w.Replies(id))
+				w.SetFailAck(kind == "ack-write-fails")
 				h.HandleStreamOpen(context.Background(), id, id, p, addr, port, remotePub)
 				rep, ok := w.WaitReply(id, nrep+1, 5*time.Second)
 				if !ok {
 					t.Fatalf("VPFAIL C17 no reply to an open request (%s)\n  history: %s", kind, strings.Join(hist, "; "))
 				}
+				w.SetFailAck(false)
 				hist = append(hist, fmt.Sprintf("open(%x,%d,%s)=ack:%v", p[0], id, kind, rep.Ack))
 				switch kind {
 				case "ok":
